@@ -56,7 +56,7 @@ func init() {
 			if err, pn := safeRefresh(conf); err != nil || pn != nil {
 				return "refresh-failed", []Violation{{Clause: "valid-config-rejected", Key: key, Detail: fmt.Sprintf("err=%v panic=%v", err, pn)}}, 1
 			}
-			if en, fa := log.VerifCallerMode(); en != c.Enable || fa != c.Fast {
+			if en, fa, ok := log.VerifCallerMode(); ok && (en != c.Enable || fa != c.Fast) {
 				return "mode", []Violation{{Clause: "caller-mode-property", Key: key, Detail: fmt.Sprintf("properties enableCaller=%v fastCaller=%v were not applied (got %v,%v)", c.Enable, c.Fast, en, fa)}}, 1
 			}
 			var v []Violation
